@@ -204,6 +204,17 @@ def header_mutations(sp):
         yield {'ent': 'header', 'cls': 'stretch-schema-name', 'detail': str(n), 'text': full.replace("'FK'", "'" + 'S' * n + "'")}
     yield {'ent': 'header', 'cls': 'comment-long', 'detail': '100000', 'text': full.replace('DATA;', 'DATA; /*' + 'c' * 100000 + '*/')}
     yield {'ent': 'header', 'cls': 'comment-unterminated', 'detail': '', 'text': full.replace('DATA;', 'DATA; /* never closed')}
+    # every comment body up to a length over { * / c blank }, closed and cut off by the end of the file, in the header section, between two
+    # instances and inside an instance
+    one = sp.file(["#10=E_INTE(1);", "#11=E_STRI('s');"])
+    places = [('header', one.index('FILE_NAME')), ('between-instances', one.index('#11=')), ('inside-instance', one.index("'s'")), ('after-endsec', one.rindex('END-ISO'))]
+    L = 3 if sp.tier == 'quick' else 5
+    for n in range(0, L + 1):
+        for body in itertools.product('*/c ', repeat=n):
+            b = ''.join(body)
+            for pname, pos in places:
+                yield {'ent': 'header', 'cls': 'comment-body-cut', 'detail': pname, 'text': one[:pos] + '/*' + b}
+                yield {'ent': 'header', 'cls': 'comment-body-closed', 'detail': pname, 'text': one[:pos] + '/*' + b + '*/' + one[pos:]}
     yield {'ent': 'header', 'cls': 'empty-file', 'detail': '', 'text': ''}
     yield {'ent': 'header', 'cls': 'nul-bytes', 'detail': '', 'text': full.replace('DATA;', 'DATA;\x00\x00#1=TGT(\x001);')}
 
